@@ -7,9 +7,11 @@
 
   The tokeniser is a one-pass state machine (`tokStep`/`emit`); only `'` opens a quoted
   token here (unlike `find_terminator`, which also honours `"`).  A quoted token whose
-  closing quote is missing makes the C++ compute `find(...) + 1 = end + 1`: the token
-  then contains the byte *behind* the record view (`next`: the record's `/`, or the
-  `'\n'` after a TITLE line) — the model reproduces exactly that.
+  closing quote is missing ends at the end of the record.  A bare token of the form
+  `digits*'…` whose closing quote lies beyond the token's first separator is extended to
+  that quote and on to the next separator (`n*'A B'` is one token): when the opening quote
+  is read the machine looks ahead (`extendsQuote`) exactly as the C++ does
+  (`close != end && close >= token_end`).
 
   Core Lean only.
 -/
@@ -18,15 +20,31 @@ import OpmVerif.Model.Lex
 namespace OpmVerif.Tok
 open OpmVerif.Lex
 
-/-- tokeniser state: `none` between tokens, `some false` inside a bare word,
-`some true` inside a quoted token. -/
-abbrev TState := Option Bool
+def isDigit (b : UInt8) : Bool := 48 ≤ b.toNat && b.toNat ≤ 57
 
-def tokStep (st : TState) (c : UInt8) : TState :=
+/-- tokeniser state: between tokens; inside a bare word; inside a quoted token; inside a
+bare word that so far consists of digits; just behind the `*` of `digits*`; inside the
+quoted part of an extended `digits*'…'` token. -/
+inductive TS where
+  | gap | word | quoted | digits | star | sq
+  deriving DecidableEq, Repr
+
+/-- look-ahead behind the opening quote of `digits*'`: `true` iff a separator comes before
+the next quote and there is a quote behind it — i.e. the closing quote exists and lies at
+or beyond the plain end of the token. -/
+def extendsQuote : Bytes → Bool
+  | [] => false
+  | c :: r => if c = 39 then false else if isSep c then r.contains 39 else extendsQuote r
+
+/-- next state after reading `c`; `rest` is the text behind `c`. -/
+def tokStep (st : TS) (c : UInt8) (rest : Bytes) : TS :=
   match st with
-  | none => if isSep c then none else if c = 39 then some true else some false
-  | some false => if isSep c then none else some false
-  | some true => if c = 39 then none else some true
+  | .gap => if isSep c then .gap else if c = 39 then .quoted else if isDigit c then .digits else .word
+  | .word => if isSep c then .gap else .word
+  | .digits => if isSep c then .gap else if isDigit c then .digits else if c = 42 then .star else .word
+  | .star => if isSep c then .gap else if c = 39 ∧ extendsQuote rest = true then .sq else .word
+  | .sq => if c = 39 then .word else .sq
+  | .quoted => if c = 39 then .gap else .quoted
 
 /-- put `c` in front of the token that is being built. -/
 def consHead (c : UInt8) : List Bytes → List Bytes
@@ -34,32 +52,30 @@ def consHead (c : UInt8) : List Bytes → List Bytes
   | t :: ts => (c :: t) :: ts
 
 /-- effect of reading `c` in state `st` on the token list of the remaining text. -/
-def emit (st : TState) (c : UInt8) (ts : List Bytes) : List Bytes :=
+def emit (st : TS) (c : UInt8) (ts : List Bytes) : List Bytes :=
   match st with
-  | none => if isSep c then ts else consHead c ts
-  | some false => if isSep c then [] :: ts else consHead c ts
-  | some true => if c = 39 then consHead c ([] :: ts) else consHead c ts
+  | .gap => if isSep c then ts else consHead c ts
+  | .quoted => if c = 39 then consHead c ([] :: ts) else consHead c ts
+  | .sq => consHead c ts
+  | _ => if isSep c then [] :: ts else consHead c ts
 
-/-- tokens of the text read from state `st`; `next` is the byte behind the record view. -/
-def tok (next : UInt8) : TState → Bytes → List Bytes
-  | none, [] => []
-  | some false, [] => [[]]
-  | some true, [] => [[next]]
-  | st, c :: r => emit st c (tok next (tokStep st c) r)
+/-- tokens of the text read from state `st`. -/
+def tok : TS → Bytes → List Bytes
+  | .gap, [] => []
+  | _, [] => [[]]
+  | st, c :: r => emit st c (tok (tokStep st c r) r)
 
 /-- `splitSingleRecordString`. -/
-def tokenize (record : Bytes) (next : UInt8) : List Bytes := tok next none record
+def tokenize (record : Bytes) : List Bytes := tok .gap record
 
 def evenQuotes (record : Bytes) : Bool := (record.filter (· == 39)).length % 2 == 0
 
 /-- `RawRecord::RawRecord(record, location, text = false)`: tokens, or the
 "quotes are not balanced" error. -/
-def rawRecord (record : Bytes) (next : UInt8) : Option (List Bytes) :=
-  if evenQuotes record then some (tokenize record next) else none
+def rawRecord (record : Bytes) : Option (List Bytes) :=
+  if evenQuotes record then some (tokenize record) else none
 
 /-! ## star tokens -/
-
-def isDigit (b : UInt8) : Bool := 48 ≤ b.toNat && b.toNat ≤ 57
 
 /-- `isStarToken`: `(countString, valueString)`. -/
 def isStarToken (t : Bytes) : Option (Bytes × Bytes) :=
